@@ -97,6 +97,36 @@ func c18Oracle(c *Ctx, s string, ans map[string]bool) {
 		}
 	}
 	rc := utf8.RuneCountInString(s)
+	// the limits are enforced *exactly*: a string inside the documented alphabet and length is accepted
+	clean := func(forbidden string) bool {
+		for _, r := range s {
+			if isSpaceRE2(r) || strings.ContainsRune(forbidden, r) {
+				return false
+			}
+		}
+		return utf8.ValidString(s)
+	}
+	if !ty && rc >= 1 && rc <= 254 && clean(":#@*") {
+		fail("a type of 1..254 characters from the documented alphabet is rejected")
+	}
+	if !rel && rc >= 1 && rc <= 50 && clean(":#@*") {
+		fail("a relation of 1..50 characters from the documented alphabet is rejected")
+	}
+	if !cond && rc >= 1 && rc <= 50 && clean("*") {
+		fail("a condition name of 1..50 characters without '*' and whitespace is rejected")
+	}
+	if i := strings.Index(s, ":"); !obj && i >= 0 && strings.Count(s, ":") == 1 && rc >= 2 && rc <= 256 && utf8.ValidString(s) {
+		t, id := s[:i], s[i+1:]
+		tOK := utf8.RuneCountInString(t) >= 1 && utf8.RuneCountInString(t) <= 254
+		for _, r := range t {
+			if isSpaceRE2(r) || strings.ContainsRune(":#@*", r) {
+				tOK = false
+			}
+		}
+		if tOK && id != "" && validation.ValidateObjectID(id) {
+			fail("an object of 2..256 characters that splits into an accepted type and an accepted id is rejected")
+		}
+	}
 	if ty && (rc < 1 || rc > 254) {
 		fail("type limit 254 not enforced")
 	}
@@ -159,7 +189,8 @@ func init() {
 		lens := []int{0, 1, 2, 3, 49, 50, 51, 52, 100, 252, 253, 254, 255, 256, 257, 258, 300}
 		for _, n := range lens {
 			a := strings.Repeat("a", n)
-			for _, s := range []string{a, "t:" + a, a + ":i", a + ":*", "t:i#" + a, a + ":i#r", "t:" + a + "#r", "é" + a, a + "é"} {
+			e := strings.Repeat("é", n)
+			for _, s := range []string{a, "t:" + a, a + ":i", a + ":*", "t:i#" + a, a + ":i#r", "t:" + a + "#r", "é" + a, a + "é", e, e + ":1", e + ":*", "t:é" + a, e + ":i#" + "r"} {
 				items = append(items, c18Item{s, "boundary"})
 				c.Dist("boundary")
 			}
